@@ -49,6 +49,15 @@ def _scenario_input(bits, n):
                         note="mixed widths and directions"))
     out.append(Scenario("A A_out\n(%s) X\n" % lit(n), [("bidir", "A", bits, "Z")], default_answer=[0],
                         expect={"sig": "A", "want": w}, note="bidirectional"))
+    # one header column bound to two signals of different widths: `A_out` is an input pin of that name and also the
+    # read-back column of the bidirectional signal A; each signal is reduced to its own width
+    for ow in sorted(set((4, 13, 64)) - {bits}):
+        out.append(Scenario("A_out\n(%s)\n" % lit(n), [("in", "A_out", bits, 0), ("bidir", "A", ow, "Z")], default_answer=[0],
+                            expect={"sig": "A_out", "want": w}, note="column shared with a bidirectional signal of width %d" % ow))
+    # the same value on consecutive rows with a failing row in between: what is handed over is the row's own value
+    out.append(Scenario("A\n5\n(%s)\n(%s)\n5\n" % (lit(n), lit(n)), [("in", "A", bits, 0)], fail_at=[2], stop_on_err=False,
+                        expect={"handed": ["0" if False else str(_want(bits, 5)), w, w, str(_want(bits, 5))]},
+                        note="repeated entry after a row whose driver call failed"))
     return out
 
 
@@ -56,6 +65,11 @@ def _judge_input(bits, n):
     def chk(o, sc):
         if not o.ok("NEW") or len(o.calls) < 2:
             return "row was not delivered to the driver: %s" % o.lines[-3:]
+        if "handed" in sc.expect:
+            got = [dict((nm, v) for nm, v, _, _ in c[2]).get("A") for c in o.calls[1:]]
+            if got != sc.expect["handed"]:
+                return "driver was handed A = %s over the run, expected %s (%s)" % (got, sc.expect["handed"], sc.note)
+            return None
         for key, wkey in (("sig", "want"), ("sig2", "want2")):
             if key not in sc.expect:
                 continue
@@ -144,6 +158,9 @@ def _scenario_expected(bits, n):
                         expect={"sig": "Y", "want": w, "sig2": "Q", "want2": str(_want(ob, n))}, note="two outputs"))
     out.append(Scenario("D D_out\nZ (%s)\n" % lit(n), [("bidir", "D", bits, "Z")], default_answer=[0],
                         expect={"sig": "D", "want": w}, note="bidirectional expected"))
+    for iw in sorted(set((4, 13, 64)) - {bits}):
+        out.append(Scenario("D_out\n(%s)\n" % lit(n), [("in", "D_out", iw, 0), ("bidir", "D", bits, "Z")], default_answer=[0],
+                            expect={"sig": "D", "want": w}, note="read-back column shared with an input pin of width %d" % iw))
     out += _scenario_virtual(n)
     return out
 
